@@ -108,6 +108,9 @@ def ties_world(rng, n, style=None):
 		W.add_genome(w, rng, i, rng.randrange(len(w.taxa)), sig, names_pool=['plain'])
 	for j in range(nq):
 		w.queries.append(dict(label=f'q{j}', sig=list(range(j * m, (j + 1) * m)), contigs=None))
+	# signatures of genomes that are not in the genome table, stored between the others (a gap in the used positions)
+	for e in range(rng.choice([0, 1, 2, 5])):
+		w.extra.append(dict(id=f'unrelated/{e}', int_id=900000 + e, sig=sorted(rng.sample(range(B + n * 8 + 50), rng.randint(0, 10)))))
 	w.finalize()
 	W.assign_thresholds(rng, w)
 	return w
@@ -169,7 +172,9 @@ def run_api(sh, ctx):
 		order = list(range(n))
 		if rng.random() < 0.5:
 			rng.shuffle(order)
-		d = w.write_db(ctx.workdir / f'w{wi}', sig_order=order)
+		d = w.write_db(ctx.workdir / f'w{wi}', sig_order=order, interleave_seed=wi)
+		if w.extra:
+			ctx.count('databases_with_unlisted_signatures_in_between')
 		db = ReferenceDatabase.load_from_dir(d)
 		try:
 			qs = [np.array(q['sig'], dtype=w.dtype) for q in w.queries]
@@ -255,7 +260,7 @@ def run_shard(sh, ctx):
 
 def finalize(merged, tier, seed, inconclusive):
 	c = merged['counters']
-	for n in ['strict_mode_queries', 'rows_with_ties', 'rows_with_tied_minimum', 'n_regime:<=16', 'n_regime:17-64', 'n_regime:>64', 'csv_json_pairs', 'rows_with_near_ties']:
+	for n in ['strict_mode_queries', 'rows_with_ties', 'rows_with_tied_minimum', 'n_regime:<=16', 'n_regime:17-64', 'n_regime:>64', 'csv_json_pairs', 'rows_with_near_ties', 'databases_with_unlisted_signatures_in_between']:
 		if c.get(n, 0) == 0:
 			inconclusive.append(f'class never observed: {n}')
 	dg = merged['notes'].get('digest_lists', {})
